@@ -54,6 +54,7 @@ def blockTags (b : Block) : List String :=
   (if b.instrs.any (fun i => i.reads.any fun r => i.writes.contains r || i.captures.contains r) then ["self-rw"] else []) ++
   (if (b.term.map fun t => !(memAccesses t).isEmpty) == some true then ["term-mem"] else []) ++
   (if b.instrs.any (fun i => !i.captures.isEmpty) then ["capture"] else []) ++
+  (if b.instrs.any (fun i => i.reads.any fun r => i.captures.contains r) then ["self-read-capture"] else []) ++
   (if b.instrs.any (fun i => i.role == .rf && !(memAccesses i).isEmpty) then ["rf-mem"] else [])
 
 def edgeTags (es : List Edge) : List String :=
